@@ -25,6 +25,7 @@ def cwCfg : Cfg := { nWorkers := 2, maxFailures := 1, wait := true, crit := { ma
 def fwCfg : Cfg := { nWorkers := 2, maxFailures := 1, wait := true, crit := { maxFinished := some 0 } }
 def cnCfg : Cfg := { nWorkers := 2, maxFailures := 1, crit := { maxCompleted := some 0 } }
 def fnCfg : Cfg := { nWorkers := 2, maxFailures := 1, crit := { maxFinished := some 0 } }
+def ewCfg : Cfg := { nWorkers := 2, maxFailures := 1, wait := true, crit := { maxEvals := some 0 } }
 
 /-- iteration 1 starts trials 0 and 1; iteration 2 sees both completed (count 2 = 0 + n_workers) and, the stopping
 condition of iteration 1 being false, starts trials 2 and 3; then `_stop_condition()` is true (56 steps; the state
@@ -81,5 +82,16 @@ def addRaiseCfg : Cfg := { nWorkers := 1, maxFailures := 1, crit := { maxStarted
 def addRaiseRun : List Ans :=
   [.ret, τ, τ] ++ emptyIter ++ [τ, .sugg (.start 0 none), .ret, .raise] ++
   [.ret, .ids [0], τ, .status .inProgress, .ret, τ, τ, τ]
+
+/-- the witnesses of this file by name (driver op `witness`, next to `Witness.byName`) -/
+def byName12b : String → Option (Cfg × List Ans)
+  | "cw" => some (cwCfg, twoPrefix ++ twoWaitRest)
+  | "fw" => some (fwCfg, twoPrefix ++ twoWaitRest)
+  | "fn" => some (fnCfg, twoPrefix ++ twoStopRest)
+  | "ev" => some (evCfg, evPrefix ++ evRest)
+  | "ew" => some (ewCfg, twoPrefix ++ twoWaitRest)
+  | "fr" => some (frCfg, frRun)
+  | "addRaise" => some (addRaiseCfg, addRaiseRun)
+  | _ => none
 
 end SyneTune.Tuner.Witness
